@@ -560,3 +560,82 @@ def h_bounded(inp, body):
     import bounded
     res = getattr(bounded, inp["what"])(inp)
     return {"reproduced": not res["ok"], "observed": res.get("witness")}
+
+
+def _valid_args(pp, net, fn):
+    """valid positional arguments for a create function on a small net (junctions 0..2, pipe 0)"""
+    import ast
+    import pandapipes.create as cr
+    required = []
+    for node in ast.parse(open(cr.__file__).read()).body:
+        if isinstance(node, ast.FunctionDef) and node.name == fn:
+            names = [a.arg for a in node.args.args]
+            required = names[1:len(names) - len(node.args.defaults)]
+    vals = {"junction": 0, "from_junction": 0, "to_junction": 1, "return_junction": 0, "flow_junction": 1,
+            "controlled_junction": 1, "junctions": [0, 1], "from_junctions": [0, 1], "to_junctions": [1, 2],
+            "controlled_junctions": [1, 2], "mdot_kg_per_s": 0.1, "pn_bar": 5., "tfluid_k": 300., "p_bar": 5., "t_k": 300.,
+            "qext_w": 100., "inner_diameter_mm": 100., "std_type": None, "length_km": 0.1, "element": 1, "elements": [1, 2],
+            "et": "ju", "new_std_type_name": "P1", "p_flow_bar": 5., "plift_bar": 1., "mdot_flow_kg_per_s": 0.1,
+            "pressure_ratio": 1.2, "controlled_p_bar": 4., "controlled_mdot_kg_per_s": 0.1, "nr_junctions": 2}
+    out = {name: vals[name] for name in required}
+    if "std_type" in out:
+        out["std_type"] = "P1" if "pump" in fn else "80_GGG"
+    return out
+
+
+def h_create_registers_before_check(inp, body):
+    """a call rejected by a reference check on a net without the component's table leaves the new table behind"""
+    import pandapipes as pp
+    from pandapipes.pandapipes_net import Sector
+    fn = inp["function"]
+    net = pp.create_empty_network(fluid="water", sector=Sector.NONE)
+    pp.create_junctions(net, 3, 5., 300.)
+    if "pipe" not in net or not len(net.pipe):
+        pp.create_pipe_from_parameters(net, 0, 1, 0.1, 100.)
+    args = _valid_args(pp, net, fn)
+    bad = [k for k in args if "junction" in k and k != "nr_junctions"]
+    if not bad:
+        return {"reproduced": False, "observed": "no junction reference to invalidate"}
+    k = bad[0]
+    args[k] = [98, 99] if isinstance(args[k], list) else 99
+    before = set(net.keys())
+    ncomp = len(net.component_list)
+    try:
+        getattr(pp, fn)(net, **args)
+        return {"reproduced": False, "observed": "call was not rejected"}
+    except Exception as e:  # noqa
+        new = sorted(set(net.keys()) - before)
+        return {"reproduced": bool(new) or len(net.component_list) != ncomp,
+                "observed": {"raised": "%s: %s" % (type(e).__name__, str(e)[:100]), "new_net_entries": new,
+                             "component_list_grew_by": len(net.component_list) - ncomp}}
+
+
+def h_create_doc_default(inp, body):
+    import ast
+    import pandapipes.create as cr
+    tree = ast.parse(open(cr.__file__).read())
+    d = None
+    for node in tree.body:
+        if isinstance(node, ast.FunctionDef) and node.name == inp["function"]:
+            names = [a.arg for a in node.args.args]
+            defs = dict(zip(names[len(names) - len(node.args.defaults):], node.args.defaults))
+            d = ast.unparse(defs[inp["param"]])
+    return {"reproduced": True, "observed": {"signature_default": d, "documented": inp["documented"]}}
+
+
+def h_create_pump_unknown_type(inp, body):
+    import pandapipes as pp
+    net = pp.create_empty_network(fluid="water")
+    j = pp.create_junctions(net, 2, 5., 300.)
+    try:
+        pp.create_pump_from_parameters(net, j[0], j[1], "no_such_type")
+    except Exception as e:  # noqa
+        return {"reproduced": False, "observed": "rejected: %s" % e}
+    return {"reproduced": "no_such_type" not in net.std_types["pump"],
+            "observed": {"pump.std_type": net.pump.std_type.tolist(), "known pump types": sorted(net.std_types["pump"])}}
+
+
+def h_bounded_named(inp, body):
+    import bounded
+    res = getattr(bounded, inp["what"])(inp)["checks"][inp["check"]]
+    return {"reproduced": not res["ok"], "observed": res.get("witness")}
